@@ -118,12 +118,25 @@ func mergePreamble(second Op, abortFirst bool) []Op {
 	return append(append(ops, txn...), Op{K: opCommit})
 }
 
+// splitPreamble: a deletion leaves an inner radix node that holds a value but
+// has no children; channels are taken for prefixes ending inside its compressed
+// prefix; then a key that splits that prefix is inserted.
+var splitPreamble = []Op{
+	{K: opInsert, ID: []byte{0xff}, P: 1}, {K: opInsert, ID: []byte{'a', 0x00, 0x01}, P: 1}, {K: opInsert, ID: []byte{'a', 0x00, 0x01, 0x02}, P: 1}, {K: opCommit},
+	{K: opDelete, ID: []byte{'a', 0x00, 0x01, 0x02}, P: 1}, {K: opCommit},
+	{K: opWatch, Q: &Query{Idx: idxID, Kind: qPrefix, Key: []byte{'a'}}},
+	{K: opWatch, Q: &Query{Idx: idxID, Kind: qPrefix, Key: []byte{'a', 0x00}}},
+	{K: opWatch, Q: &Query{Idx: idxID, Kind: qGet, Key: []byte{'a', 0x00}}},
+	{K: opInsert, ID: []byte{'a', 0x00, 0x02}, P: 1}, {K: opCommit},
+}
+
 var profC06 = Profile{W: with(baseWeights(), map[int]int{opWatch: 10, opInsertWatch: 3, opAbort: 3}), TwoTxns: true, PreambleOneIn: 4,
 	Preambles: [][]Op{
 		mergePreamble(Op{K: opInsert, ID: []byte{'a', 0x00, 0x01, 0x00}, P: 1}, false),
 		mergePreamble(Op{K: opInsert, ID: []byte{'a', 0x00, 0x01, 0x00}, P: 1}, true),
 		mergePreamble(Op{K: opDelete, ID: []byte{'a', 0x00, 0x01, 0x02}, P: 1}, false),
 		mergePreamble(Op{K: opInsert, ID: []byte{'a', 0x00, 0x01}, P: 1}, false),
+		splitPreamble,
 	}}
 
 const ruleC06 = "histories in which watch channels are taken on fresh snapshots (GetWatch/ListWatch/PrefixWatch/LowerBoundWatch/AllWatch on primary, unique, non-unique and both LPM indexes; InsertWatch) and retained (<=48) across later committed and aborted transactions; checked: open when handed out, closed when the Commit that changes the query's model answer returns, unchanged across aborts, and - at every hook point inside WriteTxn/Commit/Abort and every operation boundary - a channel found closed implies a fresh snapshot with a newer table revision. Non-trivial = a retained channel's answer was changed by a later commit and another retained channel survived an abort that had written to its table; distinct by case encoding."
